@@ -8,14 +8,32 @@ package txt
 //@ spec blank(l Line) bool
 
 // A block contains at least one line that is not blank ("exactly a single sequence of significant lines").
-//@ type block invariant exists(i, 0, len(self.lines), !blank(self.lines[i]))
+// Its lines are consecutive pieces of one string: each line's LineEnding is the bytes that follow its Text, and the
+// next line's Text starts right after them (property C08).
+//@ spec follows(l Line) bool = (l.LineEnding == "" || (l.LineEnding == "\n" && byteat(l.Text, stroff(l.Text)+len(l.Text)) == 10) || (l.LineEnding == "\r\n" && byteat(l.Text, stroff(l.Text)+len(l.Text)) == 13 && byteat(l.Text, stroff(l.Text)+len(l.Text)+1) == 10))
+//@ spec ichained(ls []Line) bool = forall(k, 0, len(ls), follows(ls[k])) && forall(k, 0, len(ls)-1, samearr(ls[k+1].Text, ls[k].Text) && stroff(ls[k+1].Text) == stroff(ls[k].Text) + len(ls[k].Text) + len(ls[k].LineEnding))
+//@ type block invariant exists(i, 0, len(self.lines), !blank(self.lines[i])) && ichained(self.lines)
 
 //@ func (*Line).IsBlank
 //@ trusted
 //@ ensures result == blank(*l)
 
 // ---------------------------------------------------------------------------------------------
-// util.go
+// line.go — a Line splits its raw text into Text and LineEnding without losing a byte (property C08):
+// Text is the prefix of the raw string (same bytes, same position), LineEnding is "\r\n", "\n" or "" and equals the
+// remaining suffix.
+
+//@ spec endingOf(raw string, e string) bool = (e == "" || (e == "\n" && len(raw) >= 1 && raw[len(raw)-1] == 10) || (e == "\r\n" && len(raw) >= 2 && raw[len(raw)-2] == 13 && raw[len(raw)-1] == 10))
+
+//@ func splitOffLineEnding
+//@ ensures same(result0, text[:len(text)-len(result1)]) && endingOf(text, result1)
+//@ ensures implies(len(text) >= 1 && text[len(text)-1] == 10, len(result1) >= 1)
+//@ loop 1 invariant implies(rangeindex >= 0, !(len(text) >= 2 && text[len(text)-2] == 13 && text[len(text)-1] == 10)) && implies(rangeindex >= 1, !(len(text) >= 1 && text[len(text)-1] == 10))
+
+//@ func NewLineFromString
+//@ ensures same(result.Text, rawLineText[:len(rawLineText)-len(result.LineEnding)]) && endingOf(rawLineText, result.LineEnding)
+//@ ensures implies(len(rawLineText) >= 1 && rawLineText[len(rawLineText)-1] == 10, len(result.LineEnding) >= 1)
+
 
 //@ func SubRune
 //@ requires start >= 0 && length >= 0
@@ -90,10 +108,21 @@ package txt
 // ---------------------------------------------------------------------------------------------
 // block.go
 
-// ParseBlock: every slice expression stays within the text; the consumed byte count never exceeds the text.
+// tiles(ls, text, n): the lines ls are consecutive pieces of text[0:n]. Each line's Text is a substring of text at the
+// position where the previous line (Text plus LineEnding) ended, its LineEnding equals the bytes that follow, and the
+// last line ends at n. This is "concatenating Original() of the lines reproduces text[0:n]" (property C08) without sums.
+//@ spec endAt(text string, p int, e string) bool = (e == "" || (e == "\n" && text[p] == 10) || (e == "\r\n" && text[p] == 13 && text[p+1] == 10))
+//@ spec lineEnd(l Line) int = stroff(l.Text) + len(l.Text) + len(l.LineEnding)
+//@ spec chained(ls []Line, text string) bool = forall(k, 0, len(ls), samearr(ls[k].Text, text) && stroff(ls[k].Text) >= stroff(text) && endAt(text, stroff(ls[k].Text) - stroff(text) + len(ls[k].Text), ls[k].LineEnding)) && forall(k, 0, len(ls)-1, stroff(ls[k+1].Text) == lineEnd(ls[k]))
+//@ spec tiles(ls []Line, text string, n int) bool = chained(ls, text) && implies(len(ls) > 0, stroff(ls[0].Text) == stroff(text) && lineEnd(ls[len(ls)-1]) == stroff(text) + n) && implies(len(ls) == 0, n == 0)
+
+// ParseBlock: every slice expression stays within the text; the consumed byte count never exceeds the text;
+// the lines of the returned block tile the consumed prefix of the text.
 //@ func ParseBlock
 //@ ensures 0 <= result1 && result1 <= len(text)
 //@ ensures implies(nonnil(result0), typeis(result0, *block) && fresh(result0) && result0.(*block).precedingLineCount == precedingLineCount)
+//@ ensures implies(nonnil(result0), tiles(result0.(*block).lines, text, result1) && len(result0.(*block).lines) >= 1)
+//@ loop 1 invariant tiles(lines, text, currentLineStart)
 //@ loop 1 invariant 0 <= currentLineStart && currentLineStart <= rangepos() && rangepos() <= len(text) && bytesConsumed == currentLineStart
 //@ loop 1 invariant 0 <= currentMode && currentMode <= 2 && implies(currentMode != 0, exists(i, 0, len(lines), !blank(lines[i])))
 //@ loop 1 decreases len(text) - rangepos()
